@@ -292,6 +292,11 @@ func (s *scStart) Configure(w *World) {
 				start = uint64(t.Draw(int(v.high)+1, nil)) // checkpoint taken mid-snapshot: the snapshot began at or below the high seqno
 				w.probe("ckpt-above-high:mid-snapshot")
 			}
+			if t.Draw(3, nil) == 0 {
+				// and the seqno reply does not list the vBucket at all
+				c.SeqnoOmitVb = s.faultVb + 1
+				w.probe("ckpt-above-high:vb-missing-in-seqno-reply")
+			}
 			w.seedCheckpoint(s.faultVb, journal.Off{UUID: v.failover[0].UUID, Seq: seq, Start: start, End: seq + 5})
 			w.jl(&journal.Ev{K: journal.KExpect, Vb: s.faultVb, S: "checkpoint seqNo bigger then vBucket latest seqNo"})
 		case "flog-error":
